@@ -117,10 +117,13 @@ def fnAuc (a : Args) : Except Err String := do
 
 def appendRows (s new : Mat) : Mat := if s.isEmpty then new else List.zipWith (· ++ ·) s new
 
-def packAUC (cfg : Args) : Except String Pack := do
-  let nTasks := (← cfg.nat? "n_tasks").getD 1
+def packAUC (cfg : Args) : Except String Pack :=
+  match cfg.nat? "n_tasks" with
+  | .error e => .error e
+  | .ok nt =>
+  let nTasks := nt.getD 1
   let reorder := cfg.bool "reorder" true
-  pure ⟨Mat × Mat, {
+  .ok ⟨Mat × Mat, {
     init := ([], [])
     upd := fun s a => do
       let x ← liftP (a.tensor "x"); let y ← liftP (a.tensor "y")
@@ -186,7 +189,7 @@ def parseMultiOut (s : String) : Option MultiOut :=
 
 def famR2 (cfg : Args) : Except String Fam := do
   let mo := parseMultiOut (cfg.strD "multioutput" "uniform_average")
-  let p : Int := (← (match cfg.get? "num_regressors" with | none => pure 0 | some _ => cfg.int "num_regressors"))
+  let p : Int ← (match cfg.get? "num_regressors" with | none => pure 0 | some _ => cfg.int "num_regressors")
   pure {
     stat := fun a => do
       if mo.isNone || p < 0 then throw .value
@@ -268,10 +271,12 @@ def fnPsnr (a : Args) : Except Err String := do
   let (x, t) ← psnrArgs a
   pure (showScalarX (tenLog10F (← psnrFn x t dr)))
 
-def packPsnr (cfg : Args) : Except String Pack := do
-  let dr ← (match dataRangeOf cfg with | .ok d => pure d | .error _ => throw "bad data_range")
+def packPsnr (cfg : Args) : Except String Pack :=
+  match dataRangeOf cfg with
+  | .error _ => .error "bad data_range"
+  | .ok dr =>
   let auto := dr.isNone
-  pure ⟨PsnrS, {
+  .ok ⟨PsnrS, {
     init := psnrInit dr
     upd := fun s a => do let (x, t) ← psnrArgs a; psnrUpd auto s x t
     mrg := fun s ss => .ok (psnrMrg auto s ss)
@@ -284,8 +289,8 @@ def bneArgs (a : Args) (numTasks : Nat) (fromLogits : Bool) : Except Err (Mat ×
   let w ← optData a "weight"
   if i.shape != t.shape then throw .value
   if let some w := w then if w.shape != i.shape then throw .value
-  if numTasks == 1 then (if i.ndim > 1 then throw .value)
-  else if i.ndim == 1 || i.shape.head? != some numTasks then throw .value
+  if numTasks == 1 && i.ndim > 1 then throw .value
+  if numTasks != 1 && (i.ndim == 1 || i.shape.head? != some numTasks) then throw .value
   if i.data.isEmpty then throw .runtime
   if !fromLogits && (i.data.any (fun q => decide (1 < q)) || i.data.any (fun q => decide (q < 0))) then throw .value
   if i.ndim > 2 || i.ndim == 0 then throw .other
